@@ -571,14 +571,15 @@ ApplyACreate(st, e) ==
       opens == {i \in 1..Len(st.logrecs) : st.logrecs[i].level = "open"}
       want == LevelAllowed(st, "open")
       pid == IF e.parent # 0 /\ Has(st.actors, e.parent) THEN st.actors[e.parent].logid ELSE 0
-      lbad == IF ~st.logOn THEN {}
+      quiet == "quiet" \in DOMAIN e /\ e.quiet     \* created inside the logger callback: nested records are not delivered
+      lbad == IF ~st.logOn \/ quiet THEN {}
               ELSE IF want
               THEN B(Cardinality(opens) # 1, "C20", "actor creation did not emit exactly one Open record")
                    \cup B(e.logid = 0 \/ e.logid \in st.logids, "C20", "actor LogID is zero or not fresh")
                    \cup B(\E i \in opens : st.logrecs[i].id # e.logid \/ st.logrecs[i].parent # pid,
                           "C20", "Open record carries wrong id or parent")
               ELSE B(opens # {}, "C20", "Open record delivered although filtered out")
-  IN R([s2 EXCEPT !.logrecs = << >>, !.logids = @ \cup {e.logid}], lbad)
+  IN R([s2 EXCEPT !.logrecs = IF quiet THEN @ ELSE << >>, !.logids = @ \cup {e.logid}], lbad)
 
 ApplyDie(st, e, cause) ==
   IF ~Has(st.actors, e.aid) THEN R(st, {}) ELSE
